@@ -68,6 +68,22 @@ def run_profile(c):
         loads[h0] = v
     bhe, rn = parts(c.get("grout_rhocp", 3901000.0))
     sp = SimulationParameters(1, c["months"], 35, 5, 135, 60)
+    if c.get("reuse_rn"):
+        # ONE short-time model object serving two boreholes in turn (same height and soil, hence the same t_s; another grout conductivity): a
+        # hybrid load is built for the first, the short-time response is recomputed for the second, and the hybrid load under test is built then
+        from ghedesigner.borehole import GHEBorehole
+        from ghedesigner.borehole_heat_exchangers import SingleUTube
+        from ghedesigner.media import GHEFluid, Grout, Pipe, Soil
+        from ghedesigner.radial_numerical_borehole import RadialNumericalBH
+
+        def mk(kg):
+            pipe = Pipe(Pipe.place_pipes(0.01856, 0.02108, 1), 0.01702, 0.02108, 0.01856, 1e-6, 0.4, 1542000.0)
+            return SingleUTube(0.5, GHEFluid("water", 0.0), GHEBorehole(100.0, 2.0, 0.075, 0.0, 0.0), pipe, Grout(kg, 3901000.0), Soil(2.0, 2343493.0, 18.3))
+        bhe_a, bhe = mk(c["reuse_rn"][0]), mk(c["reuse_rn"][1])
+        rn = RadialNumericalBH(bhe_a)
+        rn.calc_sts_g_functions(bhe_a)
+        HybridLoad(list(loads), bhe_a, rn, sp)
+        rn.calc_sts_g_functions(bhe)
     import warnings as w
     with w.catch_warnings(record=True) as ws:
         w.simplefilter("always")
